@@ -12,7 +12,7 @@
 From Coq Require Import List String Ascii NArith ZArith Bool Sorted.
 Import ListNotations.
 From Solstat Require Import Lift Pt Walk Res Nodes Utils Detectors Opt_pack Cases DetCases LineSpec NoPanic
-     MapLoc Equivariance2 Equivariance3 EquivarianceAll StrLit LinesMove.
+     MapLoc Equivariance2 Equivariance3 EquivarianceAll StrLit LinesMove Patterns PragmaLayout VersionProof.
 
 (* the same tokens start flagged constructs before and after *)
 Theorem detectors_equivariant : forall (r : Loc -> Loc), (forall a b, r a = r b -> a = b) ->
@@ -75,3 +75,43 @@ Print Assumptions short_revert_measures_length_ex.
 Theorem walker_equivariant : forall (r : Loc -> Loc) T n, walk T (mapl_node r n) = map (mapl_node r) (walk T n).
 Proof. exact walk_mapl. Qed.
 Print Assumptions walker_equivariant.
+
+(* The value of a pragma directive is raw text for the parser, so white space inside it is not removed by the lexer.
+   It does not matter either: blanks inserted or removed between the sub-tokens of the value (anywhere except inside
+   a run of digits and dots, i.e. inside a version number) change neither the version that is extracted nor the
+   presence of a caret ... *)
+Theorem pragma_value_blank_insensitive : forall a ws b : string,
+  all_chars is_blank ws = true -> boundary_ok a b ->
+  version_of_string (a ++ ws ++ b)%string = version_of_string (a ++ b)%string /\
+  sp_has_char "^"%char (a ++ ws ++ b)%string = sp_has_char "^"%char (a ++ b)%string.
+Proof.
+  intros a ws b Hws Hb. split; [apply version_blank_insensitive; assumption|apply caret_blank_insensitive; exact Hws].
+Qed.
+Print Assumptions pragma_value_blank_insensitive.
+
+(* ... hence the five detectors that read a pragma value return exactly the same result (panics included) on two
+   trees that differ only by such re-spacing of pragma values (any number of insertions and removals) *)
+Theorem pragma_relayout_detectors : forall su su', su_relayout su su' ->
+  safe_math_pre_080_optimization su' = safe_math_pre_080_optimization su /\
+  safe_math_post_080_optimization su' = safe_math_post_080_optimization su /\
+  short_revert_string_optimization su' = short_revert_string_optimization su /\
+  string_error_optimization su' = string_error_optimization su /\
+  floating_pragma_vulnerability su' = floating_pragma_vulnerability su.
+Proof.
+  intros su su' H. repeat split;
+    [ apply safe_math_pre_relayout_lemma | apply safe_math_post_relayout_lemma | apply short_revert_relayout_lemma
+    | apply string_error_relayout_lemma | apply floating_pragma_relayout_lemma ]; exact H.
+Qed.
+Print Assumptions pragma_relayout_detectors.
+
+(* the side condition is needed (a blank inside a version number changes the version) and the hypotheses are satisfiable *)
+Example blank_inside_version_number_matters :
+  version_of_string "0.8. 4" <> version_of_string "0.8.4" /\ boundary_okb "0.8." "4" = false.
+Proof. split; [vm_compute; discriminate|reflexivity]. Qed.
+Print Assumptions blank_inside_version_number_matters.
+
+Example pragma_relayout_example :
+  su_relayout (layout_su ">=0.8.0<0.9.0") (layout_su ">= 0.8.0 <0.9.0") /\
+  version_of_string ">= 0.8.0 <0.9.0" = Some (0, 9, 0)%Z.
+Proof. split; [exact layout_su_related|exact range_spaced]. Qed.
+Print Assumptions pragma_relayout_example.
